@@ -246,15 +246,25 @@ class Linearization(Operator):
         """
         if np.isscalar(other):
             return self.__mul__(other)
+        from .domain_tuple import DomainTuple
+        from .operators.contraction_operator import ContractionOperator
+        from .operators.diagonal_operator import DiagonalOperator
         from .operators.outer_product_operator import OuterProduct
+
+        def jac_self(oval):
+            # d -> outer(self._jac(d), oval)
+            tgt = DomainTuple.make(self.target._dom + oval.domain._dom)
+            spc = tuple(range(len(self.target), len(tgt)))
+            bc = ContractionOperator(tgt, spc).adjoint
+            return DiagonalOperator(oval, tgt, spc) @ bc @ self._jac
+
         if other.jac is None:
             return self.new(OuterProduct(other.domain, self._val)(other),
-                            OuterProduct(other.domain, self._jac(self._val)))
+                            jac_self(other))
         tmp_op = OuterProduct(other.target, self._val)
         return self.new(
             tmp_op(other._val),
-            OuterProduct(other.target, self._jac(self._val))._myadd(
-                tmp_op(other._jac), False))
+            jac_self(other._val)._myadd(tmp_op(other._jac), False))
 
     def vdot(self, other):
         """Computes the inner product of this Linearization with a Field or
